@@ -43,6 +43,9 @@ func checkC03(ctx *Ctx, r *Report, tier string) {
 	checkNonExpansive(ctx, r)
 	r.floor("E1", 6)
 	r.floor("L1", 18)
+	// L2: the polynomial blend kernel is non-decreasing and 1-Lipschitz in each argument (a premise
+	// of L1 for blended combinators; rule shared with C02 M11)
+	checkPolyKernel(ctx, r, "L2")
 	r.expectControl("L1", "verifCtlScaleNoDivide3D")
 }
 
